@@ -343,6 +343,9 @@ def run_cl_case(sh, case):
 
 CL2_SRC = """
 from pymtl3 import *
+def WATCH(log, x):
+  if len(log) < 4: log.append(type(x).__name__)
+
 class StageRTL(Component):
   def construct(s, k):
     s.in_ = InPort(8); s.out = OutPort(8)
@@ -403,6 +406,13 @@ class Chain(Component):
     def up_pre(): s.in_2 @= s.in_
     s.in_2 = Wire(8)
     s.add_constraints( WR(s.stage[0].out) < U(up_obs), RD(s.stage[0].in_) > U(up_pre) )
+    # a block that mentions a child (and, below, a child's interface) AS A WHOLE: both are members of its read set
+    s.seen = []
+    @update
+    def up_watch():
+      s.in_3 @= s.in_
+      WATCH(s.seen, s.stage[0])
+    s.in_3 = Wire(8)
     # ... and on a BLOCK of a child (when the child has one of that name)
     if pc: s.add_constraints( U(up_pre) < U(s.stage[0].get_update_block("up")) )
     # ... and a block of a child ordered against the writers / readers of a SIGNAL: a port of that child, a signal of the parent
@@ -420,6 +430,11 @@ class Chain(Component):
       s.mco //= s.mc.out
       # a block of one child ordered against a METHOD of another child
       if pc: s.add_constraints( U(s.stage[0].get_update_block("up")) < M(s.mc.recv) )
+      @update
+      def up_watch_ifc():
+        s.in_4 @= s.in_
+        WATCH(s.seen, s.mc.recv)
+      s.in_4 = Wire(8)
     if tie is not None:
       # a stage whose input the parent ties to a constant
       s.tie = tie[0](k=tie[1]); s.tieo = OutPort(8)
